@@ -27,7 +27,7 @@ If(c, name) == IF c THEN {name} ELSE {}
 VerdictOf ==
   [ C03 |-> {"int_out_of_bounds", "float_out_of_bounds", "float_nan", "float_inf_unbounded", "length_out_of_bounds", "keys_not_distinct",
              "element_out_of_contract", "string_limits", "invalid_utf8", "not_a_permutation", "input_modified", "predicate_false",
-             "wrong_type", "internal_assertion", "filter_predicate_false"},
+             "wrong_type", "internal_assertion", "filter_predicate_false", "hangs"},
     C12 |-> {"not_minimal_integer", "not_minimal_length", "elements_not_zero", "minimization_lost_failure"},
     C18 |-> {"value_unreachable", "edge_not_hit", "seed_repeated", "cases_repeat", "float_edge_not_hit"} ]
 Verdicts == IF Property = "ALL" THEN UNION { VerdictOf[p] : p \in DOMAIN VerdictOf } ELSE VerdictOf[Property]
@@ -111,9 +111,12 @@ Fresh == /\ Is("fresh") /\ Adv
          /\ viol' = viol \cup If(~IsSet(Ev.seeds), "seed_repeated") \cup If(Ev.ncases > 1 /\ Ev.distinctCases <= 1, "cases_repeat")
          /\ UNCHANGED <<scen, kind, last, nfinal>>
 
-Handled == {"scen.begin", "scen.end", "h.phase", "contract", "h.once.end", "run.end", "reach", "edge", "fresh"}
+Handled == {"hang", "scen.begin", "scen.end", "h.phase", "contract", "h.once.end", "run.end", "reach", "edge", "fresh"}
+\* the watchdog saw an invocation still running after 90 s: the library hung
+Hang == /\ Is("hang") /\ Adv /\ viol' = viol \cup {"hangs"} /\ UNCHANGED <<scen, kind, last, nfinal>>
+
 Other == /\ l <= Len(Trace) /\ Trace[l].ev \notin Handled /\ Adv /\ UNCHANGED <<scen, viol, kind, last, nfinal>>
-Next == ScenBegin \/ ScenEnd \/ Phase \/ Contract \/ OnceEnd \/ RunEnd \/ Reach \/ Edge \/ Fresh \/ Other
+Next == Hang \/ ScenBegin \/ ScenEnd \/ Phase \/ Contract \/ OnceEnd \/ RunEnd \/ Reach \/ Edge \/ Fresh \/ Other
 Spec == Init /\ [][Next]_vars
 
 HW == /\ TLCSet(1, IF l > TLCGet(1) THEN l ELSE TLCGet(1))
